@@ -431,3 +431,63 @@ pub fn replay_walk(case: &Value) -> Value {
     }
     json!({"conf": mis.is_empty(), "mis": mis, "pv": pvs, "flips": flips, "cls": cls})
 }
+
+/// Every PAIR of authenticated bits of one small authentic path flipped together
+/// (C11: "all single- and double-bit corruptions").  P: detected no later than at the later owner.
+pub fn replay_double(case: &Value) -> Value {
+    let pieces: Vec<Piece> = case["pieces"].as_array().unwrap().iter().map(|p| Piece { n: p["n"].as_u64().unwrap() as usize, cd: p["cd"].as_bool().unwrap() }).collect();
+    let mut rng = Rng::new(vh_core::seed_from_env() ^ 0x99);
+    let salt = 2;
+    let j = build_authentic(&pieces, salt, &mut rng, true, 1_700_000_000);
+    let fwd: Vec<usize> = (1..=j.nas).collect();
+    let mut bits: Vec<(usize, u8, usize)> = Vec::new();
+    for g in 1..=j.hdr.hop.len() {
+        for f in ["exp", "in", "eg", "mac"] {
+            for (o, b) in field_bits(&j.hdr, f, g) {
+                bits.push((o, b, j.as_of_hop[g - 1]));
+            }
+        }
+    }
+    let mut first = 0usize;
+    for (k, p) in pieces.iter().enumerate() {
+        for f in ["sid", "ts"] {
+            for (o, b) in field_bits(&j.hdr, f, k + 1) {
+                bits.push((o, b, j.as_of_hop[first]));
+            }
+        }
+        first += p.n;
+    }
+    let base = j.hdr.bytes();
+    let mut pvs = Vec::new();
+    let mut mis = Vec::new();
+    let mut pairs = 0u64;
+    let mut early = 0u64;
+    for a in 0..bits.len() {
+        for b in a + 1..bits.len() {
+            let mut buf = base.clone();
+            buf[bits[a].0] ^= 1 << bits[a].1;
+            buf[bits[b].0] ^= 1 << bits[b].1;
+            pairs += 1;
+            let w = walk(&mut buf, &fwd, salt);
+            if pvs.len() < 8 {
+                pvs.extend(w.pv.iter().cloned());
+            }
+            let later = bits[a].2.max(bits[b].2);
+            let earlier = bits[a].2.min(bits[b].2);
+            if w.outcome == "delivered" {
+                pvs.push(pv("TamperUndetected:double-flip", format!("bits {}.{} and {}.{} flipped on authentic path {:?}: delivered", bits[a].0, bits[a].1, bits[b].0, bits[b].1, pieces)));
+            } else if w.failed_at > later {
+                pvs.push(pv("TamperDetectedLate:double-flip", format!("bits {}.{} and {}.{} flipped on {:?}: first failure at AS {}, owners {} and {}", bits[a].0, bits[a].1, bits[b].0, bits[b].1, pieces, w.failed_at, bits[a].2, bits[b].2)));
+            } else if w.failed_at != earlier {
+                early += 1;
+                if mis.len() < 2 {
+                    mis.push(json!({"field": format!("failed_at(bits {}.{} + {}.{})", bits[a].0, bits[a].1, bits[b].0, bits[b].1), "spec": earlier, "real": w.failed_at}));
+                }
+            }
+            if pvs.len() > 50 {
+                break;
+            }
+        }
+    }
+    json!({"conf": mis.is_empty(), "mis": mis, "pv": pvs, "flips": pairs, "not_at_earlier_owner": early, "cls": cd_class(&pieces)})
+}
